@@ -45,6 +45,10 @@ func Escape(str string, isBytes bool) (string, error) {
 				} else {
 					buf = append(buf, `\t`...)
 				}
+			case '\r':
+				// A raw carriage return would be normalized to a newline when the
+				// string is read back, so it is always byte-escaped.
+				buf = append(buf, `\x0d`...)
 			case '\\':
 				if isBytes {
 					buf = append(buf, `\x5c`...)
